@@ -218,6 +218,7 @@ func genNegScript(g G, devPct int) NegScript {
 	} else if g.Bool("enable-noresume") {
 		s.Enable = EnableNoResume
 	}
+	s.ResumeOne = g.Pct("resume-spelled-1", 25)
 	s.Prefixed = g.Bool("prefixed")
 	s.Spaces = g.Bool("spaces")
 	s.DelayMs = []int{0, 0, 5, 400}[g.N("delay", 4)]
